@@ -16,12 +16,12 @@ ASSUMPTIONS = [
     "a counterexample of the statistics clause is replayed with the real math functions at the model's X / n and must differ from the documented formula by more than 1 (estimate) or 1e-9 relative (rate) to be reported",
 ]
 BOUNDS = {
-    "quick": "the quick job sets of the mutator harnesses named in job_list (counter labels count+1, total, count, count-stored, elements_added+1, cms-join-total, ...); load factors on cuckoo 2x1/2x2 and the 8-slot quotient filter; statistics on 63 bits/4 hashes and 1438 bits/10 hashes with X and n symbolic",
+    "quick": "the quick job sets of the mutator harnesses named in job_list (counter labels count+1, total, count, count-stored, elements_added+1, cms-join-total, ...); load factors on cuckoo 2x1/2x2 and the 8-slot quotient filter; statistics on 63 bits/4 hashes and 1438 bits/10 hashes with X and n symbolic; X = popcount of the current bits (before / after clear, after a counter restored to an old value) on 2, 6, 8, 11 bits",
     "thorough": "the thorough job sets of the same harnesses",
     "outside": "numerical accuracy of ln/exp; structures larger than the configuration sets",
 }
 EXPECT_LABELS = {"quick": ["count+1", "total", "count", "count-stored", "elements_added+1", "cms-join-total", "cuckoo-load-factor",
-                           "qf-load-factor", "estimate-is-documented-formula", "rate-is-documented-formula", "union-count-is-estimate", "ondisk-answers"]}
+                           "qf-load-factor", "estimate-is-documented-formula", "rate-is-documented-formula", "union-count-is-estimate", "ondisk-answers", "setbits-is-popcount"]}
 
 
 def load_factor(ctx, cfg):
@@ -67,12 +67,34 @@ def union_count(ctx, cfg):
         env.setup(ctx, "bloom", "countingbloom")
 
 
+def setbits(ctx, cfg):
+    """the set-bit count X the statistics are computed from is the population count of the CURRENT bit array - from an
+    arbitrary state (any element counter, also 0 with bits set: the counter of a union is an estimate), after clear(), and
+    after clear() followed by an add that brings the counter back to its old value (round 5: a count remembered per counter
+    value).  X is read where estimate_elements reads it (BloomFilter._cnt_number_bits_set; the stats jobs replace exactly
+    that call by a symbolic X)."""
+    env.setup(ctx, "bloom")
+    from .c01 import sym_bloom, bits_of, hv
+    bf = sym_bloom(ctx, cfg["est"], cfg["fpr"])
+    k, m = bf.number_hashes, bf.number_bits
+    pop = lambda: ctx.sum([ctx.ite(b, 1, 0) for b in bits_of(ctx, bf)])  # noqa: E731
+    n0 = bf.elements_added
+    ctx.check(ctx.eq(bf._cnt_number_bits_set(), pop()), "setbits-is-popcount")
+    bf.clear()
+    ctx.check(ctx.eq(bf._cnt_number_bits_set(), 0), "setbits-is-popcount-after-clear")
+    bf.add_alt(hv(ctx, "h", k, m))
+    ctx.check(ctx.eq(bf._cnt_number_bits_set(), pop()), "setbits-is-popcount-after-clear-add")
+    bf.elements_added = n0          # the documented setter (a caller restoring a saved counter)
+    bf.add_alt(hv(ctx, "g", k, m))
+    ctx.check(ctx.eq(bf._cnt_number_bits_set(), pop()), "setbits-is-popcount-after-clear-add")
+
+
 def stats(ctx, cfg):
     from ..fpstats import run_stats
     return run_stats(ctx, cfg)
 
 
-HARNESS = {"c14.load_factor": load_factor, "c14.qf_load_factor": qf_load_factor, "c14.union_count": union_count, "c14.stats": stats}
+HARNESS = {"c14.load_factor": load_factor, "c14.qf_load_factor": qf_load_factor, "c14.union_count": union_count, "c14.stats": stats, "c14.setbits": setbits}
 for _m in (c01, c02, c03, c04, c08, c09, c10, c11, c12, c16):
     HARNESS.update(_m.HARNESS)
 
@@ -105,6 +127,8 @@ def jobs(tier):
     HARNESS.setdefault("c05.roundtrip", c05.roundtrip)
     js += [j for j in c05.jobs(tier) if j["cfg"].get("kind") in ("ccuckoo", "cuckoo", "CountMinSketch", "cbf", "exp") and j["cfg"].get("channel") == "bytes"
            and not j["cfg"].get("zero")]
+    for est, fpr in [(1, .5), (2, .3), (3, .28), (3, .2)]:
+        js.append({"h": "c14.setbits", "cfg": {"est": est, "fpr": fpr}, "opts": {"witnesses": 1}})
     for m, k in [(63, 4), (1438, 10)]:
         for which in ("estimate", "rate"):
             js.append({"h": "c14.stats", "cfg": {"m": m, "k": k, "which": which}, "opts": {"cost": 10000, "timeout_ms": 300000, "no_witness": True}})
